@@ -111,7 +111,7 @@ Print Assumptions C11_refuses_unresolved.
 (* the reserved prefix is a prefix test with the constant of /repo *)
 Theorem C11_reserved_is_prefix : forall k,
   reserved k = existsb (fun p => has_prefix p k) gen_reserved_annotation_prefixes.
-Proof. reflexivity. Qed.
+Proof. exact reserved_is_prefix. Qed.
 Print Assumptions C11_reserved_is_prefix.
 
 (* --- frame: whatever the outcome, no map object other than the signer's own
